@@ -511,7 +511,7 @@ func init() {
 		Technique: "exhaustive enumeration of cache programs (configured and context keys, contents, CacheIf, inner compositions, histories) executed on the real code with an instrumented cache, checked against a map reference; plus schedule exploration of overlapping executions sharing the cache policy",
 		Rule: "a program = configured key {none, a} x initial content {empty, a, b} x CacheIf {none, result==1, err!=nil} x inner composition (7) x outcome x a history of three executions with context keys from {absent, a, b, empty string, non-string}; " +
 			"plus the cache policy nested inside a retry policy, and inside a timeout that expires while the function still runs; plus schedule exploration of 2-3 overlapping executions through one cache policy with different, configured and absent keys, and of a caller's context ending while the function runs; the reference is a plain map; distinct = distinct observation logs",
-		Assume: []string{"an empty string supplied as the context key: 'no key' and 'falls back to the configured key' are both accepted", "an execution with no cache key may or may not report a miss"},
+		Assume: []string{"an empty string supplied as the context key takes precedence like any other string and is no key", "an execution with no cache key may or may not report a miss"},
 		Budget: map[string]time.Duration{"quick": 120 * time.Second},
 		Units: func(tier string) []Unit {
 			us := programUnits("C11", c11Programs(tier), 200, 1)
